@@ -20,9 +20,8 @@ Section Leaves.
 Variable af : nat -> Rvec -> Rvec.
 Variable ad : nat -> Rvec -> Rvec -> Rvec.
 Variable adm arn : nat -> space.
-Variable rv : bool.     (* variant of OperatorRightScalarMult.derivative, see Model.prims *)
 Definition PR : prims R :=
-  {| tr := trR; rt := sqrt; afun := af; ader := ad; adom := adm; aran := arn; rsv := rv |}.
+  {| tr := trR; rt := sqrt; afun := af; ader := ad; adom := adm; aran := arn |}.
 
 (* where the entry-wise function is differentiable *)
 Definition uregular (f : ufn) (a : R) : Prop :=
